@@ -151,3 +151,210 @@ Qed.
 Lemma tokenize_raw_consumes s : strip_ws (concat (tokenize_raw s)) = strip_ws s.
 Proof. apply (run_consumes s l_init). Qed.
 
+
+(* ---- tokenize (print ts) = ts ---- *)
+Lemma decide_clean l c : decide (mkL [] MNone l) c = (None, [], MNone, Some c).
+Proof. unfold decide; cbn. destruct ((c =? 42) && last_is l 47); rewrite ?andb_false_r; reflexivity. Qed.
+
+Lemma is_breaker_false c : is_breaker c = false ->
+  is_ws c = false /\ (c =? 42) = false /\ (c =? 92) = false /\ (c =? 34) = false /\ (c =? 96) = false.
+Proof. unfold is_breaker. rewrite !orb_false_iff. tauto. Qed.
+
+Lemma plain_facts c : plain c = true ->
+  is_breaker c = false /\ (c =? 46) = false /\ (c =? 47) = false.
+Proof. unfold plain. rewrite !andb_true_iff, !negb_true_iff. tauto. Qed.
+
+Lemma set_mode_snoc b c : (c =? 47) = false -> (c =? 42) = false -> (c =? 34) = false -> (c =? 92) = false ->
+  (c =? 96) = false -> set_mode (b ++ [c]) = MNone.
+Proof.
+  intros H1 H2 H3 H4 H5. destruct b as [|x [|y [|z r]]]; simpl; rewrite ?H1, ?H2, ?H3, ?H4, ?H5, ?andb_false_r; reflexivity.
+Qed.
+
+Lemma step_plain b l c : in_single b = false -> plain c = true ->
+  step (mkL b MNone l) c = (None, mkL (b ++ [c]) MNone (Some c)).
+Proof.
+  intros Hs Hp. apply plain_facts in Hp as (Hbr & H46 & H47). pose proof (is_breaker_false c Hbr) as (Hws & H42 & H92 & H34 & H96).
+  unfold step, decide; cbn [l_buf l_mode l_last]. rewrite Hs. cbn [lmode_eqb andb]. rewrite H42, Hbr, H46. cbn [andb].
+  unfold settle. rewrite Hws. cbn [negb lmode_eqb]. rewrite set_mode_snoc by assumption. reflexivity.
+Qed.
+
+Lemma ws_not c k : is_ws c = true -> is_ws k = false -> (c =? k) = false.
+Proof. intros H1 H2. destruct (c =? k) eqn:E; [apply N.eqb_eq in E; subst; congruence|reflexivity]. Qed.
+
+Lemma step_sep b l sep : b <> [] -> in_single b = false -> is_ws sep = true ->
+  step (mkL b MNone l) sep = (Some b, mkL [] MNone (Some sep)).
+Proof.
+  intros Hb Hs Hw. unfold step, decide; cbn [l_buf l_mode l_last]. rewrite Hs. cbn [lmode_eqb andb].
+  rewrite (ws_not sep 42 Hw eq_refl). cbn [andb]. unfold is_breaker. rewrite Hw. cbn [orb andb].
+  destruct b; [congruence|]. cbn [is_nil negb]. unfold settle. rewrite Hw. cbn. reflexivity.
+Qed.
+
+Lemma step_clean_ws l sep : is_ws sep = true -> step (mkL [] MNone l) sep = (None, mkL [] MNone (Some sep)).
+Proof. intros Hw. unfold step. rewrite decide_clean. unfold settle. rewrite Hw. cbn. reflexivity. Qed.
+
+Lemma word_tail sep rest : is_ws sep = true -> forall w b l, b <> [] -> in_single b = false -> forallb plain w = true ->
+  run (mkL b MNone l) (w ++ sep :: rest) = (b ++ w) :: run (mkL [] MNone (Some sep)) rest.
+Proof.
+  intros Hw. induction w as [|c r IH]; intros b l Hb Hs Hp.
+  - cbn [app run]. rewrite step_sep by assumption. rewrite app_nil_r. reflexivity.
+  - cbn [forallb] in Hp. apply andb_true_iff in Hp as [Hc Hr]. cbn [app run]. rewrite step_plain by assumption.
+    rewrite IH; [rewrite <- app_assoc; reflexivity|apply snoc_not_nil|apply snoc_not_single; assumption|assumption].
+Qed.
+
+Lemma single_cases p : is_single_c p = true ->
+  In p [40; 41; 42; 59; 46; 91; 93; 123; 125; 58; 44; 35; 39; 61].
+Proof. unfold is_single_c. rewrite !orb_true_iff, !N.eqb_eq. cbn [In]. intuition. Qed.
+
+Lemma plain_not_single c : plain c = true -> (c =? 39) = false -> is_single_c c = false.
+Proof.
+  intros Hp H39. destruct (is_single_c c) eqn:E; [|reflexivity]. apply single_cases in E. cbn [In] in E.
+  repeat (destruct E as [E|E]; [subst c; vm_compute in Hp; vm_compute in H39; congruence|]). destruct E.
+Qed.
+
+Lemma word_run sep rest l t : is_ws sep = true -> word_ok t = true ->
+  run (mkL [] MNone l) (t ++ sep :: rest) = t :: run (mkL [] MNone (Some sep)) rest.
+Proof.
+  intros Hw Ht. destruct t as [|c r]; [discriminate|]. cbn [word_ok] in Ht.
+  apply andb_true_iff in Ht as [Ht Hr]. apply andb_true_iff in Ht as [Hc H39]. apply negb_true_iff in H39.
+  cbn [app run]. rewrite (step_plain [] l c eq_refl Hc). cbn [app].
+  rewrite (word_tail sep rest Hw r [c]); [reflexivity|discriminate| |assumption].
+  cbn [in_single]. apply plain_not_single; assumption.
+Qed.
+
+Lemma punct_run sep rest l t : is_ws sep = true -> punct_ok t = true ->
+  run (mkL [] MNone l) (t ++ sep :: rest) = t :: run (mkL [] MNone (Some sep)) rest.
+Proof.
+  intros Hw Ht. unfold punct_ok in Ht. destruct t as [|p [|q r]]; try discriminate. cbn [in_single] in Ht.
+  assert (Hnw : is_ws p = false) by (apply single_cases in Ht; cbn [In] in Ht;
+    repeat (destruct Ht as [Ht|Ht]; [subst p; reflexivity|]); destruct Ht).
+  assert (Hsm : set_mode [p] = MNone) by (apply single_cases in Ht; cbn [In] in Ht;
+    repeat (destruct Ht as [Ht|Ht]; [subst p; reflexivity|]); destruct Ht).
+  cbn [app run]. unfold step at 1. rewrite decide_clean. unfold settle at 1. rewrite Hnw. cbn [negb app lmode_eqb].
+  rewrite Hsm. cbn [lmode_eqb andb].
+  unfold step at 1, decide. cbn [l_buf l_mode l_last in_single]. rewrite Ht. unfold settle. rewrite Hw. cbn. reflexivity.
+Qed.
+
+Lemma body_then_split ok close : forall r, body_then ok close r = true ->
+  exists body, r = body ++ [close] /\ forallb ok body = true.
+Proof.
+  induction r as [|c r IH]; [discriminate|]. destruct r as [|c' r'].
+  - cbn. intros H. apply N.eqb_eq in H. subst. exists []. split; reflexivity.
+  - intros H. change (ok c && body_then ok close (c' :: r') = true) in H. apply andb_true_iff in H as [H1 H2].
+    destruct (IH H2) as (body & E & F). exists (c :: body). rewrite E. split; [reflexivity|]. cbn. rewrite H1, F. reflexivity.
+Qed.
+
+(* inside an escaped identifier *)
+Lemma step_esc b l c : b <> [] -> in_single b = false -> is_ws c = false ->
+  step (mkL b MEsc l) c = (None, mkL (b ++ [c]) MEsc (Some c)).
+Proof.
+  intros Hb Hs Hw. unfold step, decide; cbn [l_buf l_mode l_last]. rewrite Hs, Hw. cbn [lmode_eqb andb].
+  destruct ((c =? 42) && last_is l 47); destruct (is_breaker c); destruct (c =? 46); cbn [andb];
+    unfold settle; rewrite Hw; reflexivity.
+Qed.
+
+Lemma step_esc_end b l c : in_single b = false -> is_ws c = true ->
+  step (mkL b MEsc l) c = (Some (b ++ [32]), mkL [] MNone (Some c)).
+Proof.
+  intros Hs Hw. unfold step, decide; cbn [l_buf l_mode l_last]. rewrite Hs, Hw. cbn [lmode_eqb andb].
+  unfold settle; rewrite Hw; reflexivity.
+Qed.
+
+Lemma esc_tail rest : forall body b l, b <> [] -> in_single b = false ->
+  forallb (fun x => negb (is_ws x)) body = true ->
+  run (mkL b MEsc l) (body ++ 32 :: rest) = (b ++ body ++ [32]) :: run (mkL [] MNone (Some 32)) rest.
+Proof.
+  induction body as [|c r IH]; intros b l Hb Hs Hp.
+  - cbn [app run]. rewrite step_esc_end by (assumption || reflexivity). reflexivity.
+  - cbn [forallb] in Hp. apply andb_true_iff in Hp as [Hc Hr]. apply negb_true_iff in Hc. cbn [app run].
+    rewrite step_esc by assumption.
+    rewrite IH; [rewrite <- app_assoc; reflexivity|apply snoc_not_nil|apply snoc_not_single; assumption|assumption].
+Qed.
+
+Lemma escaped_run sep rest l t : is_ws sep = true -> escaped_ok t = true ->
+  run (mkL [] MNone l) (t ++ sep :: rest) = t :: run (mkL [] MNone (Some sep)) rest.
+Proof.
+  intros Hw Ht. destruct t as [|c r]; [discriminate|]. cbn [escaped_ok] in Ht. apply andb_true_iff in Ht as [Hc Hr].
+  apply N.eqb_eq in Hc. subst c. apply body_then_split in Hr as (body & -> & Hb).
+  cbn [app run]. unfold step at 1. rewrite decide_clean. unfold settle at 1. cbn.
+  rewrite <- app_assoc. cbn [app]. rewrite esc_tail; [|discriminate|reflexivity|assumption].
+  cbn [app run]. rewrite step_clean_ws by assumption. reflexivity.
+Qed.
+
+(* inside a string *)
+Lemma step_str b l c : b <> [] -> in_single b = false -> (c =? 34) = false ->
+  step (mkL b MStr l) c = (None, mkL (b ++ [c]) MStr (Some c)).
+Proof.
+  intros Hb Hs Hq. unfold step, decide; cbn [l_buf l_mode l_last]. rewrite Hs, Hq. cbn [lmode_eqb andb].
+  destruct ((c =? 42) && last_is l 47); destruct (is_breaker c); destruct (c =? 46); cbn [andb];
+    unfold settle; destruct (is_ws c); reflexivity.
+Qed.
+
+Lemma step_str_end b l : in_single b = false ->
+  step (mkL b MStr l) 34 = (Some (b ++ [34]), mkL [] MNone None).
+Proof. intros Hs. unfold step, decide; cbn [l_buf l_mode l_last]. rewrite Hs. reflexivity. Qed.
+
+Lemma str_tail rest : forall body b l, b <> [] -> in_single b = false ->
+  forallb (fun x => negb (x =? 34)) body = true ->
+  run (mkL b MStr l) (body ++ 34 :: rest) = (b ++ body ++ [34]) :: run (mkL [] MNone None) rest.
+Proof.
+  induction body as [|c r IH]; intros b l Hb Hs Hp.
+  - cbn [app run]. rewrite step_str_end by assumption. reflexivity.
+  - cbn [forallb] in Hp. apply andb_true_iff in Hp as [Hc Hr]. apply negb_true_iff in Hc. cbn [app run].
+    rewrite step_str by assumption.
+    rewrite IH; [rewrite <- app_assoc; reflexivity|apply snoc_not_nil|apply snoc_not_single; assumption|assumption].
+Qed.
+
+Lemma string_run sep rest l t : is_ws sep = true -> string_ok t = true ->
+  run (mkL [] MNone l) (t ++ sep :: rest) = t :: run (mkL [] MNone (Some sep)) rest.
+Proof.
+  intros Hw Ht. destruct t as [|c r]; [discriminate|]. cbn [string_ok] in Ht. apply andb_true_iff in Ht as [Hc Hr].
+  apply N.eqb_eq in Hc. subst c. apply body_then_split in Hr as (body & -> & Hb).
+  cbn [app run]. unfold step at 1. rewrite decide_clean. unfold settle at 1. cbn.
+  rewrite <- app_assoc. cbn [app]. rewrite str_tail; [|discriminate|reflexivity|assumption].
+  cbn [app run]. rewrite step_clean_ws by assumption. reflexivity.
+Qed.
+
+Lemma tok_run sep rest l t : is_ws sep = true -> tok_ok t = true ->
+  run (mkL [] MNone l) (t ++ sep :: rest) = t :: run (mkL [] MNone (Some sep)) rest.
+Proof.
+  intros Hw Ht. unfold tok_ok in Ht. rewrite !orb_true_iff in Ht. destruct Ht as [[[H|H]|H]|H].
+  - apply word_run; assumption.
+  - apply punct_run; assumption.
+  - apply escaped_run; assumption.
+  - apply string_run; assumption.
+Qed.
+
+Lemma run_print sep : is_ws sep = true -> forall ts l, forallb tok_ok ts = true ->
+  run (mkL [] MNone l) (print_with sep ts) = ts.
+Proof.
+  intros Hw. induction ts as [|t ts IH]; intros l H; [reflexivity|].
+  cbn [forallb] in H. apply andb_true_iff in H as [Ht Hts]. unfold print_with. cbn [flat_map]. rewrite <- app_assoc. cbn [app].
+  rewrite tok_run by assumption. f_equal. apply IH; assumption.
+Qed.
+
+Lemma tok_ok_not_comment t : tok_ok t = true -> is_comment t = false.
+Proof.
+  unfold tok_ok. rewrite !orb_true_iff. intros [[[H|H]|H]|H].
+  - destruct t as [|c [|c' r]]; try reflexivity. cbn in H. apply andb_true_iff in H as [H _]. apply andb_true_iff in H as [H _].
+    apply plain_facts in H as (_ & _ & H). cbn. rewrite H. reflexivity.
+  - destruct t as [|c [|c' r]]; try reflexivity. discriminate.
+  - destruct t as [|c [|c' r]]; try reflexivity. cbn in H. apply andb_true_iff in H as [H _]. apply N.eqb_eq in H. subst. reflexivity.
+  - destruct t as [|c [|c' r]]; try reflexivity. cbn in H. apply andb_true_iff in H as [H _]. apply N.eqb_eq in H. subst. reflexivity.
+Qed.
+
+Lemma drop_comments_ok ts : forallb tok_ok ts = true -> drop_comments ts = ts.
+Proof.
+  induction ts as [|t ts IH]; [reflexivity|]. cbn [forallb]. intros H. apply andb_true_iff in H as [Ht Hts].
+  unfold drop_comments in *. cbn [filter]. rewrite (tok_ok_not_comment t Ht). cbn [negb]. f_equal. apply IH; assumption.
+Qed.
+
+Lemma tokenize_raw_print_with sep ts : is_ws sep = true -> forallb tok_ok ts = true ->
+  tokenize_raw (print_with sep ts) = ts.
+Proof. intros Hw H. apply run_print; assumption. Qed.
+
+Lemma tokenize_print_with sep ts : is_ws sep = true -> forallb tok_ok ts = true ->
+  tokenize (print_with sep ts) = ts.
+Proof. intros Hw H. unfold tokenize. rewrite tokenize_raw_print_with by assumption. apply drop_comments_ok; assumption. Qed.
+
+Lemma tokenize_print_tokens ts : forallb tok_ok ts = true -> tokenize (print_tokens ts) = ts.
+Proof. apply tokenize_print_with. reflexivity. Qed.
